@@ -21,7 +21,7 @@ MANIFEST = {
     "technique": "bounded-exhaustive differential enumeration: every input executed at both log levels and compared",
 }
 MANIFEST["text"] += " " + (
-    'Added after the seeding waves: on the named graphs all spanning traces (pairs and jumping triples) with eight non-emitting configurations incl. widths 2-3 and a tight max_dist, which is where the DEBUG-only code paths (stopped candidates inside the non-emitting search and in pruning) are reached; this found D20 and D21. Wherever the plain match stops early, the history match / continue_with_distance / match(expand=True) is compared between the two levels as well.')
+    'Added after the seeding waves: on the named graphs all spanning traces (pairs and jumping triples) with eight non-emitting configurations incl. widths 2-3 and a tight max_dist, which is where the DEBUG-only code paths (stopped candidates inside the non-emitting search and in pruning) are reached; this found D20 and D21. Wherever the plain match stops early, the history match / continue_with_distance / match(expand=True) is compared between the two levels as well; a 9-node road loop with a joining side road (`loop9`), sparse traces and a grid of min_prob_norm values (a rejected and a live candidate share a lattice key inside a long non-emitting run).')
 BUDGET = {"quick": 900, "thorough": 3000}
 RULE = ("states = (input, configuration) triples of runs (default, DEBUG+stream handler, DEBUG+null handler), transitions = matcher "
         "executions, traces validated = DEBUG results compared with the default result; non-trivial = under DEBUG the lattice contains at "
@@ -45,6 +45,18 @@ def cases(tier):
     for name, pos, g in ms.special_graphs():
         if tier == "thorough" or pos == "GENERIC" or "fork8" in name:
             yield {"gs": ms.explicit(g), "pos": pos, "name": name, "tier": tier, "wide": True}
+    yield {"gs": ms.explicit(LOOP9), "pos": "GENERIC", "name": "loop9-1way", "tier": tier, "loop": True}
+
+
+# A road loop (triangle 4 > 5 > 6 > 4) with a side road (1 > 7 > 6) that joins it, at unit scale: inside a long non-emitting run
+# a state of layer >= 2 is reached from two different states of the layer before, one of them through a candidate that a
+# min_prob_norm cut-off rejects - the DEBUG-only stopped entry then shares a key with a live one (prev_other is filled)
+LOOP9 = {0: ((-4.0, 0.0), [1]), 1: ((-2.0, 0.0), [2, 7]), 2: ((0.0, 0.0), [3]), 3: ((1.0, 0.0), [4]), 4: ((2.0, 0.0), [5]), 5: ((3.0, 0.0), [6]),
+         6: ((2.5, 1.0), [4, 8]), 7: ((0.0, 0.6), [6]), 8: ((2.5, 4.0), [])}
+LOOP_TRACES = [[(-3.8, 0.0), (-1.9, 0.0), (0.1, 0.0), (2.75, 0.5), (2.5, 2.2), (2.5, 3.5)], [(-1.9, 0.0), (0.1, 0.0), (2.75, 0.5), (2.5, 3.5)],
+               [(-3.8, 0.1), (0.1, 0.1), (2.5, 2.2)], [(0.1, 0.0), (2.75, 0.5), (2.1, 0.1), (2.5, 3.5)], [(-1.9, 0.0), (2.75, 0.5), (2.5, 2.2)]]
+LOOP_CFGS = [dict(fam=f, ne=True, avoid=av, width=None, obs_noise=0.5, max_dist=3.0, max_dist_init=0.8, min_prob_norm=mpn)
+             for f in ("S", "SN", "D") for av in (True, False) for mpn in (0.5, 0.55, 0.6, 0.65, 0.7)]
 
 
 class Level:
@@ -120,6 +132,8 @@ def run_case(case):
     mp = maps.inmem(graph)
     cfgs = [case["cfg"]] if "cfg" in case else CFGS
     todo = [(t, cfgs) for t in trace_list(case, graph, pos)]
+    if case.get("loop") and "trace" not in case:
+        todo = [(t, LOOP_CFGS) for t in LOOP_TRACES] + [(t, LOOP_CFGS[2::5]) for t in ps.special_traces(pos, graph)]
     if case.get("wide") and "trace" not in case:
         # named graphs: all traces that span the graph (pairs and jumping triples), with the non-emitting configurations whose
         # DEBUG-only code paths (stopped candidates inside the non-emitting search) they reach
